@@ -62,6 +62,19 @@ void op_pl_update(World& w, const Op& op)
     row->next_list_id = op.i[2] < 0 ? v2::PLAYLIST_NO_NEXT_LIST_ID : w.crates.at((size_t)op.i[2]).id();
     pl.update(*row);
 }
+// the same move, but the row also takes the title of the sibling it is placed before: the last statement of the re-linking
+// sequence then violates the UNIQUE (title, parent) constraint by itself - a failure that needs no injected fault
+void op_pl_update_dup(World& w, const Op& op)
+{
+    auto pl = w.lib2->playlist();
+    auto row = pl.get(w.crates.at((size_t)op.i[0]).id());
+    auto other = pl.get(w.crates.at((size_t)op.i[2]).id());
+    if (!row || !other) throw std::runtime_error("harness: playlist row missing");
+    row->parent_list_id = op.i[1] < 0 ? v2::PARENT_LIST_ID_NONE : w.crates.at((size_t)op.i[1]).id();
+    row->next_list_id = other->id;
+    row->title = other->title;
+    pl.update(*row);
+}
 // playlist_entity_table::add_back through the table API, with the library's own uuid (u = 0) or a foreign one (u = 1)
 void op_pe_add_back(World& w, const Op& op)
 {
@@ -85,6 +98,7 @@ struct RegisterOps
     {
         World::register_op("pl_update", op_pl_update);
         World::register_op("pe_add_back", op_pe_add_back);
+        World::register_op("pl_update_dup", op_pl_update_dup);
     }
 } register_ops;
 
@@ -162,6 +176,10 @@ struct Dom
                 ops.push_back(Op{"pl_update", {c, p, -1}, {}});
                 for (int nx : kids_of(p))
                     if (nx != c) ops.push_back(Op{"pl_update", {c, p, nx}, {}});
+                // ... and once with a title that collides in the target list (moves only: an in-place update is one statement)
+                if (p != m.c[c].parent)
+                    for (int nx : kids_of(p))
+                        if (nx != c) { ops.push_back(Op{"pl_update_dup", {c, p, nx}, {}}); break; }
             }
         }
         return ops;
@@ -178,7 +196,8 @@ struct Dom
         bool foreign_anchor = false;
         if (op.f == "create_root_after") foreign_anchor = m.c[op.i[0]].parent != -1;
         if (op.f == "create_sub_after") foreign_anchor = m.c[op.i[1]].parent != (int)op.i[0];
-        if (!r.ok && !foreign_anchor) viol("rejected_valid_operation", "operation was rejected: " + r.ex_type + ": " + r.what);
+        if (!r.ok && !foreign_anchor && op.f != "pl_update_dup") viol("rejected_valid_operation", "operation was rejected: " + r.ex_type + ": " + r.what);
+        if (op.f == "pl_update_dup" && r.ok) viol("duplicate_title_stored", "a playlist row was moved into a list that already holds its title (the schema's UNIQUE (title, parentListId) should refuse it)");
         // listing of a parent in the implementation, as crate indices (-2 for an unknown id)
         auto impl_list = [&](int p) {
             std::vector<int64_t> ids;
